@@ -200,6 +200,7 @@ var Mutants = map[string][]Mutant{
 		{"Close retags one end only", "path.go", `\t\tp\.d\[len\(p\.d\)-1\] = CloseCmd\n\t\tp\.d\[len\(p\.d\)-cmdLen\(LineToCmd\)\] = CloseCmd\n`, "\t\tp.d[len(p.d)-1] = CloseCmd\n", "E2.retag"},
 	},
 	"C11": {
+		{"quoted url() reference sliced without its own length test (reverts fix 379229e)", "svg.go", `\} else if 7 < len\(val\) \{\n[^\n]*\n(\t\t\t\treturn val\[6 : len\(val\)-2\])`, "} else {\n$1", "E4.slice-length-guarded"},
 		{"decimal formatter tests the signed value against 1", "util.go", `if a := math\.Abs\(float64\(f\)\); 1\.0 <= a && !math\.IsInf\(a, 0\) \{`, "if a := float64(f); 1.0 <= a && !math.IsInf(a, 1) {", "E11.magnitude-test-on-abs"},
 		{"S reflects when the stored last command is a cubic", "path.go", `if prevCmd == 'C' \|\| prevCmd == 'c' \|\| prevCmd == 'S' \|\| prevCmd == 's' \{`, "if 0 < len(p.d) && p.d[len(p.d)-1] == CubeToCmd {", "E11.svg-smooth"},
 		{"Join hands the stored rotation (radians) to ArcTo (degrees)", "path.go", `p\.ArcTo\(d\[1\], d\[2\], d\[3\]\*180\.0/math\.Pi, large, sweep, d\[5\], d\[6\]\)`, "p.ArcTo(d[1], d[2], d[3], large, sweep, d[5], d[6])", "E8.units"},
